@@ -45,6 +45,8 @@ structure Tables where
   /-- DEFAULT_ATTRS, _EMPTY_ATTRS -/
   defaultAttrs : Attrs
   emptyAttrs : Attrs
+  /-- behaviour probe: does `parse_color` reject '#' + non-hex characters (ValueError)? -/
+  hexValidated : Bool
 
 /-- `dict.get(k)` on an association list (keys of a dict are unique; first match). -/
 def lookup [BEq κ] (k : κ) : List (κ × α) → Option α
